@@ -15,6 +15,7 @@ import (
 // stores with runtime.Gosched() spinning: no channel, mutex or atomic. The Go race detector therefore sees no
 // synchronisation contributed by the scheduler and judges the library's own happens-before edges only.
 type Sched struct {
+	progress uint64 // hook events so far (plain counter, norace accessors)
 	t        *Tape
 	strategy int
 	tasks    []*schedTask
@@ -77,6 +78,24 @@ var stratNames = []string{"random", "run-to-completion", "round-robin", "pct"}
 
 // NewSched creates a scheduler whose decisions come from the tape.
 func NewSched(t *Tape) *Sched {
+	s := newSched(t)
+	CurrentSched = s
+	return s
+}
+
+// CurrentSched is the scheduler created last (one run at a time per worker process); StepEpoch asks it whether a
+// parallel turnover that does not return is still making progress.
+var CurrentSched *Sched
+
+// Progress counts hook events (spawn, begin, yield, end, scheduling steps). Read by the hang monitor only.
+//
+//go:norace
+func (s *Sched) Progress() uint64 { return s.progress }
+
+//go:norace
+func (s *Sched) tick() { s.progress++ }
+
+func newSched(t *Tape) *Sched {
 	return &Sched{t: t, strategy: t.Draw("sched.strategy", numStrats), yieldByTag: map[string]int{}, tasks: make([]*schedTask, 0, 4096), CancelAt: -1, last: -1}
 }
 
@@ -103,6 +122,7 @@ func idle(i int) {
 
 //go:norace
 func (s *Sched) spawn(id int) {
+	s.tick()
 	if !s.active {
 		s.active = true
 		s.tasks = s.tasks[:0]
@@ -124,6 +144,7 @@ func (s *Sched) find(id int) *schedTask {
 
 //go:norace
 func (s *Sched) begin(id int) {
+	s.tick()
 	if !s.active {
 		return
 	}
@@ -159,6 +180,7 @@ func (s *Sched) begin(id int) {
 
 //go:norace
 func (s *Sched) yield(tag string) {
+	s.tick()
 	if !s.active {
 		return
 	}
@@ -192,6 +214,7 @@ func (s *Sched) yield(tag string) {
 
 //go:norace
 func (s *Sched) end(id int) {
+	s.tick()
 	// exactly one task runs at a time: the goroutine that ends is the current one, whatever id it announces
 	t := s.current
 	if t == nil || t.state != 2 {
@@ -269,6 +292,7 @@ func (s *Sched) await() {
 // step waits until every live task is parked, releases one chosen by the strategy and waits until it has parked again
 // or ended. It returns false (and closes the epoch's schedule) when all tasks have ended.
 func (s *Sched) step() bool {
+	s.tick()
 	if !s.active {
 		return false
 	}
